@@ -18,9 +18,10 @@ VARIABLES tree,      \* path (non-empty sequence of names) -> kind
           tree0,     \* history: the tree `clean` was started on
           phase,     \* "building" | "cleaned"
           reported,  \* the number printed by "Removed N files"
-          outside    \* TRUE while everything outside DIR (symlink targets) is intact
+          outside,   \* TRUE while everything outside DIR (symlink targets) is intact
+          root       \* DIR itself: "dir" while the directory `clean` was pointed at exists
 
-vars == <<tree, tree0, phase, reported, outside>>
+vars == <<tree, tree0, phase, reported, outside, root>>
 
 -----------------------------------------------------------------------------
 (* Rust's Path::extension on a single file name: the text after the last '.', *)
@@ -49,7 +50,7 @@ Clean(extra) ==
          /\ tree' = Without(tree, gone)
          /\ reported' = Cardinality(gone)
     /\ phase' = "cleaned"
-    /\ UNCHANGED <<tree0, outside>>
+    /\ UNCHANGED <<tree0, outside, root>>      \* DIR itself is a directory: it stays, even when it ends up empty
 
 -----------------------------------------------------------------------------
 (* generator: grow a tree one entry at a time *)
@@ -61,7 +62,7 @@ AddTop(n, k) ==
     /\ <<n>> \notin DOMAIN tree
     /\ tree' = [p \in DOMAIN tree \cup {<<n>>} |-> IF p = <<n>> THEN k ELSE tree[p]]
     /\ tree0' = tree'
-    /\ UNCHANGED <<phase, reported, outside>>
+    /\ UNCHANGED <<phase, reported, outside, root>>
 
 AddChild(d, n, k) ==
     /\ phase = "building"
@@ -70,10 +71,10 @@ AddChild(d, n, k) ==
     /\ <<d, n>> \notin DOMAIN tree
     /\ tree' = [p \in DOMAIN tree \cup {<<d, n>>} |-> IF p = <<d, n>> THEN k ELSE tree[p]]
     /\ tree0' = tree'
-    /\ UNCHANGED <<phase, reported, outside>>
+    /\ UNCHANGED <<phase, reported, outside, root>>
 
 Init == /\ tree = NoTree /\ tree0 = NoTree /\ phase = "building"
-        /\ reported = 0 /\ outside = TRUE
+        /\ reported = 0 /\ outside = TRUE /\ root = "dir"
 
 Next == \/ \E n \in TopNames, k \in TopKinds : AddTop(n, k)
         \/ \E d \in TopNames, n \in ChildNames, k \in ChildKinds : AddChild(d, n, k)
@@ -96,6 +97,7 @@ NothingElseTouched ==
         /\ DOMAIN tree \subseteq DOMAIN tree0
         /\ \A p \in DOMAIN tree : tree[p] = tree0[p]
         /\ outside
+        /\ root = "dir"
 CountIsExact == phase = "cleaned" => reported = Cardinality(Gone)
 SubdirectoriesUntouched ==
     phase = "cleaned" => \A p \in DOMAIN tree0 : Len(p) > 1 => p \in DOMAIN tree
